@@ -111,7 +111,11 @@ def plan(tier, seed):
 
     def differential():
         return bounded.run_native("c03_structure", {"max_tokens": n, "seed": seed, "known": bounded.known_for("C03", "C03-P")})
-    pl.bounded = [("C03-P/differential vs the reference parser written from the statement", differential)]
+    def term_extent():
+        return bounded.run_native("c03_term", {"len_mixed": 6 if tier == "quick" else 7, "len_time": 12 if tier == "quick" else 13,
+                                               "known": bounded.known_for("C03", "C03-W")})
+    pl.bounded = [("C03-P/differential vs the reference parser written from the statement", differential),
+                  ("C03-W/extent of a term (escapes, time expressions) vs a hand-written scanner of the documented token shape", term_extent)]
     pl.functions = sorted(set(parsing.functions_under_contract() + ["luqum.parser.t_TERM", "luqum.tree.create_operation",
                                                                    "luqum.tree.group_to_fieldgroup", "luqum.parser._field_expression"]))
     pl.min_obligations = len(parsing.productions())
